@@ -100,19 +100,95 @@ Definition advance (m : mst) (o : op) (pend : list reg) (res : list rreg) : mst 
 
 Definition no_invokes (out : list obs) : verdict := check (negb (existsb is_invoke out)) CL_STRAY_INVOKE.
 
+(* the local feature, reference, data a datagram on connection p delivers to (None: nobody is concerned) *)
+Definition target_of (m : mst) (p : N) (d : dgram) : option (rent * rfeat * lfeat * N * N * bool) :=
+  match find_peer (w m) p with
+  | None => None
+  | Some pe =>
+      match remote_feature pe (d_src d), local_feature (w m) (d_dst d) with
+      | Some (en, rf), Some lf =>
+          match delivers (w m) pe en rf lf d with
+          | Some (r, data, result) => Some (en, rf, lf, r, data, result)
+          | None => None
+          end
+      | _, _ => None
+      end
+  end.
+
+(* an arrival: new registries, prescribed invocations *)
+Definition mon_inbound (m : mst) (p : N) (d : dgram) : mst * list obs :=
+  match target_of m p d with
+  | Some (en, rf, lf, r, data, result) =>
+      (advance m (Inbound p d) (filter (fun g => negb (on_key (lf_ent lf) (lf_id lf) r g)) (pending m)) (resultcbs m),
+       expected_invokes m p en rf lf r data result)
+  | None => (advance m (Inbound p d) (pending m) (resultcbs m), [])
+  end.
+
+(* a registration: new registries, prescribed outcome *)
+Definition mon_addresp (m : mst) (e : eaddr) (f c cb : N) : mst * list obs :=
+  match find_lfeat (w m) e (Some f) with
+  | None => (advance m (AddRespCb e f c cb) (pending m) (resultcbs m), [ONone])
+  | Some _ =>
+      let dup := memN cb (cbs_of (pending m) e f c) in
+      (advance m (AddRespCb e f c cb)
+               (if dup then pending m else pending m ++ [ {| g_ent := e; g_feat := f; g_ctr := c; g_cb := cb |} ])
+               (resultcbs m),
+       [ORetB (negb dup)])
+  end.
+
+(* ---- overlapping arrivals: the rule applied event by event, in the order the model runs them.
+   The prescription is a multiset with the peer blanked; it does not depend on the order of the events
+   whenever the operation is well posed (Proofs/CallbackProofs.par_any_interleaving): the message is a
+   result or a data reply, the racing registration is of a callback not pending for that counter, and
+   the closing arrival delivers — then every callback registered before or during the operation is
+   invoked exactly once and every result callback once per delivering arrival. *)
+Definition mon_ev (m : mst) (d : dgram) (e : ev) : mst * list obs * list obs :=
+  match e with
+  | EArr p => let '(m1, inv) := mon_inbound m p d in (m1, inv, [])
+  | EReg cb =>
+      match d_ref d, fa_feat (d_dst d) with
+      | Some r, Some f => let '(m1, rets) := mon_addresp m (fa_ent (d_dst d)) f r cb in (m1, [], rets)
+      | _, _ => (m, [], [])
+      end
+  end.
+
+Fixpoint mon_evs (m : mst) (d : dgram) (l : list ev) : mst * list obs * list obs :=
+  match l with
+  | [] => (m, [], [])
+  | e :: r =>
+      let '(m1, i1, r1) := mon_ev m d e in
+      let '(m2, i2, r2) := mon_evs m1 d r in
+      (m2, i1 ++ i2, r1 ++ r2)
+  end.
+
+Definition blank (o : obs) : obs :=
+  match o with
+  | OInvoke cb e f r _ re rf data => OInvoke cb e f r 0 re rf data
+  | _ => o
+  end.
+
+Definition quiet_body (b : body) : bool :=
+  match b with
+  | BResult _ | BCmd CReply (PData _ _) | BCmd CReply (PUseCase _) => true
+  | _ => false
+  end.
+
+Definition well_posed (m : mst) (d : dgram) (late : option N) (pf : N) : bool :=
+  quiet_body (d_body d) &&
+  match late with
+  | None => true
+  | Some cb =>
+      match target_of m pf d with
+      | Some (_, _, lf, r, _, _) => negb (memN cb (cbs_of (pending m) (lf_ent lf) (lf_id lf) r))
+      | None => false
+      end
+  end.
+
 Definition mon (m : mst) (o : op) (out : list obs) : mst * verdict :=
   match o with
   | AddRespCb e f c cb =>
-      match find_lfeat (w m) e (Some f) with
-      | None =>
-          (advance m o (pending m) (resultcbs m),
-           check (same_multiset eqb_obs_ret [ONone] (filter is_ret out)) CL_REGISTER ++ no_invokes out)
-      | Some _ =>
-          let dup := memN cb (cbs_of (pending m) e f c) in
-          (advance m o (if dup then pending m else pending m ++ [ {| g_ent := e; g_feat := f; g_ctr := c; g_cb := cb |} ])
-                   (resultcbs m),
-           check (same_multiset eqb_obs_ret [ORetB (negb dup)] (filter is_ret out)) CL_REGISTER ++ no_invokes out)
-      end
+      let '(m1, rets) := mon_addresp m e f c cb in
+      (m1, check (same_multiset eqb_obs_ret rets (filter is_ret out)) CL_REGISTER ++ no_invokes out)
   | AddResultCb e f cb =>
       match find_lfeat (w m) e (Some f) with
       | None =>
@@ -123,25 +199,14 @@ Definition mon (m : mst) (o : op) (out : list obs) : mst * verdict :=
            check (same_multiset eqb_obs_ret [] (filter is_ret out)) CL_REGISTER ++ no_invokes out)
       end
   | Inbound p d =>
-      let target :=
-        match find_peer (w m) p with
-        | None => None
-        | Some pe =>
-            match remote_feature pe (d_src d), local_feature (w m) (d_dst d) with
-            | Some (en, rf), Some lf =>
-                match delivers (w m) pe en rf lf d with
-                | Some (r, data, result) => Some (en, rf, lf, r, data, result)
-                | None => None
-                end
-            | _, _ => None
-            end
-        end in
-      match target with
-      | Some (en, rf, lf, r, data, result) =>
-          (advance m o (filter (fun g => negb (on_key (lf_ent lf) (lf_id lf) r g)) (pending m)) (resultcbs m),
-           check (same_multiset eqb_obs_invoke (expected_invokes m p en rf lf r data result) (filter is_invoke out)) CL_INVOKE)
-      | None => (advance m o (pending m) (resultcbs m), check (negb (existsb is_invoke out)) CL_INVOKE)
-      end
+      let '(m1, inv) := mon_inbound m p d in
+      (m1, check (same_multiset eqb_obs_invoke inv (filter is_invoke out)) CL_INVOKE)
+  | ParArrive ps d late pf =>
+      let '(m1, inv, rets) := mon_evs m d (par_events ps late pf) in
+      (m1, if well_posed m d late pf
+           then check (same_multiset eqb_obs_invoke (map blank inv) (map blank (filter is_invoke out))) CL_INVOKE ++
+                check (same_multiset eqb_obs_ret rets (filter is_ret out)) CL_REGISTER
+           else [])
   | _ => (advance m o (pending m) (resultcbs m), no_invokes out)
   end.
 
